@@ -74,6 +74,12 @@ func c11LongSteps() []gen.Num {
 	return []gen.Num{gen.Om(), gen.N(1), gen.N(2), gen.N(3), gen.N(-1), gen.N(-2), gen.N(17), gen.N(33)}
 }
 
+// c11Spelled: integer literals whose spelling is not what strconv.Itoa prints.
+func c11Spelled() []gen.Num {
+	mk := func(raw string, v int64) gen.Num { return gen.Num{V: v, Raw: raw} }
+	return []gen.Num{gen.Om(), mk("-0", 0), mk("-00", 0), mk("+0", 0), mk("00", 0), mk("+1", 1), mk("01", 1), mk("-01", -1), mk("+2", 2), gen.N(1)}
+}
+
 // c11Unit: family 0 = small (start,end fixed by the unit; all steps, lengths),
 // family 1 = boundary (start fixed by unit, length fixed by unit; all ends, steps),
 // family 2 = indices, family 3 = out-of-range integers must be rejected by Parse.
@@ -107,6 +113,10 @@ func newC11(tier string) run.Job {
 	// parsed function is reused from one length to the next)
 	for a := range c11LongBounds() {
 		j.units = append(j.units, c11Unit{5, a, 0})
+	}
+	// family 6: unusual spellings of the bounds (-0, -00, +0, 00, +1, 01, -01): one unit per start spelling
+	for a := range c11Spelled() {
+		j.units = append(j.units, c11Unit{6, a, 0})
 	}
 	// family 4: a slice applied to the elements selected by another slice (outer slice fixed by the unit)
 	for a := range c11Tiny() {
@@ -277,6 +287,18 @@ func (j *c11Job) RunUnit(i int, c *run.Ctx) {
 				seen[v.V] = true
 				j.evalSub(c, gen.Sub{Kind: gen.SIndex, N: v}, n, parsed)
 			}
+		}
+	case 6:
+		s := c11Spelled()[u.a]
+		for _, e := range c11Spelled() {
+			for _, t := range c11Spelled() {
+				for n := 0; n <= 4; n++ {
+					j.evalSub(c, gen.Slice(s, e, t), n, parsed)
+				}
+			}
+		}
+		for n := 0; n <= 4 && !s.Omitted; n++ {
+			j.evalSub(c, gen.Sub{Kind: gen.SIndex, N: s}, n, parsed)
 		}
 	case 5:
 		s := c11LongBounds()[u.a]
